@@ -41,6 +41,10 @@ def work(args):
         desc, files, feats = suitcases.make_case(seed, index, big=big)
     except suitcases.ChildFailed:
         return None
+    import random
+    extra = set()
+    desc = suitcases.perturb(desc, random.Random(f"{seed}:{index}:perturb"), extra)
+    feats = sorted(set(feats) | extra)
     impl = suitcases.run_impl_create(desc, files)
     model = suitio.model_create(drv, desc, files)
     out = {"hash": hashlib.sha1(json.dumps(desc, sort_keys=True, default=str).encode()).hexdigest(), "feats": feats, "scope": "in", "problems": [], "mismatch": None,
@@ -48,11 +52,12 @@ def work(args):
     if impl != model and not suitio.same_err(impl, model):
         out["mismatch"] = {"op": "suit.create", "impl": _short(impl), "model": _short(model)}
     try:
-        ref = Ref(registry(drv), files).envelope(desc)
+        enc = Ref(registry(drv), files)
+        ref = enc.envelope(desc)
+        if enc.f8_positions:
+            out["scope"] = "F8"          # known finding at the CWT payload position; everything else is compared below
     except NotInScope as e:
         out["scope"] = "excluded:" + str(e).split(" (")[0]
-        if "F8" in str(e):
-            out["scope"] = "F8"
         return out
     except Rejected as e:
         out["scope"] = "rejected-by-reference"
@@ -89,7 +94,7 @@ def run(tier: str, seed: int) -> int:
             continue
         res.evaluations += 1
         res.count("scope:" + o["scope"])
-        if o["scope"] == "in":
+        if o["scope"] in ("in", "F8"):
             res.nontrivial.add(o["hash"])
             for f in o["feats"]:
                 feat_count[f] = feat_count.get(f, 0) + 1
